@@ -504,9 +504,13 @@ def selftest_inputs(rng) -> dict:
           [''.join(rng.choice(alpha) for _ in range(rng.randrange(0, 12))) for _ in range(60)]
     uniq = [['foo', 'Foo', 'fOO'], ['coffee > tea'], ['', '', 'A', 'a'], ['x_1_1', 'x_1_1', 'x_1_10', 'X_1_1']] + \
            [[rng.choice(['ab', 'Ab', 'a<b', 'T_1_0', 'T_1_00', '']) for _ in range(rng.randrange(1, 7))] for _ in range(20)]
-    tag = [['a.b.C', 1, 0, 'a'], ['rega.sub.Outer', 1, 2, 'rega'], ['x_y.z.T', 0, 255, 'x_y'], ['r.Svc.Request', 1, 0, 'r']] + \
-          [['.'.join(rng.choice(['a', 'b_c', 'N1', 'x']) for _ in range(rng.randrange(1, 5))), rng.randrange(0, 256), rng.randrange(0, 256),
-            rng.choice(['a', 'b_c', 'x'])] for _ in range(30)]
+    tag = [['a.b.C', 1, 0, 'a', 'a.b', False], ['rega.sub.Outer', 1, 2, 'rega', 'rega.sub', False], ['x_y.z.T', 0, 255, 'x_y', 'x_y.z', False],
+           ['r.Svc.Request', 1, 0, 'r', 'r.Svc', True], ['r.n.Svc.Response', 2, 3, 'r', 'r.n.Svc', True]]
+    for _ in range(30):
+        comps = [rng.choice(['a', 'b_c', 'N1', 'x']) for _ in range(rng.randrange(2, 5))]
+        half = rng.random() < 0.3
+        tag.append(['.'.join(comps + (['Request'] if half else [])), rng.randrange(0, 256), rng.randrange(0, 256), comps[0],
+                    '.'.join(comps if half else comps[:-1]), half])
     names = ['type_info.j2', 'x.html', 'x.HTML', 'a.htm', 'b.xml.j2', 'c.json', 'd.JSON', 'html', '.html', 'e.xhtml', 'f.j2.xml', 'g', '']
     return {'escape': esc, 'uniq': uniq, 'tag': tag, 'autoescape': names}
 
@@ -517,7 +521,7 @@ def selftest_compare(exe: str, req: dict, got: dict, template_names: typing.List
     if 'err' in got:
         return 0, ['selftest harness error: ' + got['err'][-300:]]
     lines = ['ESC ' + enc(s) for s in req['escape']] + ['UNIQ ' + ' '.join(enc(s) for s in seq) for seq in req['uniq']] + \
-            ['TAG 0 e %s %d %d %s' % (enc(a), b, c, enc(d)) for a, b, c, d in req['tag']]
+            ['TAG 0 e %s %d %d %s %s %d' % (enc(a), b, c, enc(d), enc(e), 1 if f else 0) for a, b, c, d, e, f in req['tag']]
     out = run_model(exe, lines)
     k = 0
     for s, (he, me) in zip(req['escape'], got['escape']):
@@ -548,7 +552,8 @@ def model_cfg(exe: str) -> typing.Tuple[typing.Optional[dict], typing.Dict[str, 
     if not out or not out[0].startswith('CFG'):
         return None, {}
     f = [x == '1' for x in out[0].split(' ')[1:]]
-    keys = ['ae_ti', 'de_ti', 'ae_ni', 'de_ni', 'ae_sb', 'de_sb', 'ae_tb', 'de_tb', 'ae_ns', 'docs_escaped']
+    keys = ['ae_ti', 'de_ti', 'ae_ni', 'de_ni', 'ae_sb', 'de_sb', 'ae_tb', 'de_tb', 'ae_ns', 'docs_escaped', 'lk_up', 'url_links_service',
+            'all_dsdl_text_sinks_escaped', 'all_template_skeletons_balanced']
     names = {}
     for l in out[1:]:
         t = l.split(' ')
@@ -620,7 +625,7 @@ def main(chk: core.Check, replay: typing.Optional[str] = None) -> int:
         cases = gen_cases(chk.rng, n_cases)
 
     # 1. proof obligations against the regenerated translation
-    res = core.coq_check('C20', ['html'])
+    res = core.coq_check('C20', ['html', 'htmlskel'])
     chk.proof_coverage(res, [
         'T2 translator tools/translators/gen_c20.py (on pyfun_tr.py): filter_tag_id, filter_url_from_type, filter_make_unique, '
         'filter_namespace_doc, markupsafe escape, select_autoescape keyword data + shape check of its decision function, template '
@@ -656,7 +661,7 @@ def main(chk: core.Check, replay: typing.Optional[str] = None) -> int:
             chk.report_known(fid)
     esc_quirk = live['F-HTML-ESCAPE'] and chk.is_known('F-HTML-ESCAPE')
     link_quirk = {fid: live[fid] and chk.is_known(fid) for fid in ('F-HTML-LINK-SUBNS', 'F-HTML-LINK-SVC')}
-    mask_href = not all(link_quirk.values())
+    mask_href = False   # the model follows the working tree in both states of the two link findings (translated filter, lk_up)
 
     # 3. implementation runs
     impl = run_impl(work, cases, jobs=6)
